@@ -308,3 +308,10 @@ PROPS["C13"]["modes"] = PROPS["C13"]["modes"] + ["load"]
 PROPS["C13"]["nontrivial"]["load"] = PROPS["C14"]["nontrivial"]["load"]
 PROPS["C13"]["monitors"] = PROPS["C13"]["monitors"] + ["oneNodePerLocation"]
 PROPS["C13"]["rule"] += " || spellings written in the manifest: " + PROPS["C14"]["rule"]
+
+PROPS["C16"]["modes"] = PROPS["C16"]["modes"] + ["sched"]
+PROPS["C16"]["nontrivial"]["sched"] = _sched_nontrivial
+PROPS["C16"]["monitors"] = PROPS["C16"]["monitors"] + ["stopsOnInterrupt"]
+PROPS["C16"]["rule"] += " || 'SIGINT is an interruption that stops the build' at scheduler level: " + SCHED_RULE
+PROPS["C16"]["claim"] += (" The last clause (an interrupted command stops the build: nothing is started afterwards) is carried by the scheduler "
+    "mode (trace equality with the model, whose run loop returns at the first Interrupted completion, and monitor stopsOnInterrupt).")
